@@ -43,6 +43,10 @@ Step(e) ==
       [] e.ev = "hs_send_begin" ->
             \* C17: nobody waits for room in a topic's channel while holding the global lock
             IF holder = e.task THEN Flag({"C17"}, "channel_send_while_holding_global_lock") ELSE Stutter
+      [] e.ev = "pipeline_round" ->
+            \* whatever follows the registration frame in the same write belongs to the stream
+            IF e.res = "ok" THEN Stutter
+            ELSE Flag(IF e.pattern = "pubsub" THEN {"C01", "C11"} ELSE {"C02", "C11"}, "frames_pipelined_behind_the_registration_were_not_served")
       [] e.ev = "race_round" ->
             \* ServerReg!Inv_OneRouterPerTopic seen from outside: peers told Ok on one name reach each other
             IF e.res = "ok" THEN Stutter
